@@ -53,10 +53,13 @@ func (ex *Exec) pureBlock(st *State, b *ssa.BasicBlock, rt types.Type, pc Term, 
 		switch x := in.(type) {
 		case *ssa.If:
 			c := st.scalar(x.Cond)
-			a := ex.pureBlock(st.clone(), b.Succs[0], rt, tAnd(pc, c), depth+1)
-			bb := ex.pureBlock(st.clone(), b.Succs[1], rt, tAnd(pc, tNot(c)), depth+1)
+			s1, s2 := st.clone(), st.clone()
+			s1.cameFrom, s2.cameFrom = b, b
+			a := ex.pureBlock(s1, b.Succs[0], rt, tAnd(pc, c), depth+1)
+			bb := ex.pureBlock(s2, b.Succs[1], rt, tAnd(pc, tNot(c)), depth+1)
 			return iteValue(rt, c, a, bb)
 		case *ssa.Jump:
+			st.cameFrom = b
 			return ex.pureBlock(st, b.Succs[0], rt, pc, depth+1)
 		case *ssa.Return:
 			return st.val(x.Results[0])
